@@ -2,6 +2,7 @@
 # usage: seed_test.sh <patch> <PROP>...   — applies a seeded change to /repo, runs the checks, restores /repo
 P=$1; shift
 git -C /repo apply "$P" || exit 2
+export VERIF_EVIDENCE_DIR=/verif/run/seed-evidence
 for id in "$@"; do echo "== $id"; /verif/check $id 2>&1 | grep -E "VIOLATION|KNOWN|\[done\]|\[proof\]|\[corr\]" | cut -c1-400; done
 git -C /repo checkout -- .
 git -C /repo status --short
